@@ -13,8 +13,8 @@ import (
 // ever opened, and every lifecycle event that must not happen.
 type world struct {
 	insts     []*inst
-	bad       []string // lifecycle violations observed (use-after-close, double close)
-	rocksLike bool     // Reload(samePath) catches up in place (RocksDB) instead of opening a new backend (CDB)
+	bad       []string          // lifecycle violations observed (use-after-close, double close)
+	rocksLike bool              // Reload(samePath) catches up in place (RocksDB) instead of opening a new backend (CDB)
 	release   map[string]string // slow path -> "" (blocked) | "ok" | "err"
 	opened    int
 }
@@ -63,8 +63,8 @@ func (i *inst) touch(what string) {
 	}
 }
 
-func (i *inst) NewContext() db.Context     { return rctx{} }
-func (i *inst) FreeContext(db.Context)      {}
+func (i *inst) NewContext() db.Context                { return rctx{} }
+func (i *inst) FreeContext(db.Context)                {}
 func (i *inst) ClosestKeyFinder() db.ClosestKeyFinder { return nil }
 
 func (i *inst) Find(key []byte, c db.Context) ([]byte, error) {
